@@ -161,7 +161,7 @@ func explore(cfg *Config, P *interp.Program, L *Loaded, h *HarnessFn, roots []*s
 					rep.Samples = append(rep.Samples, Sample{Harness: h.Name, Path: pathStr(res.Trace), Model: res.Model, Order: res.Order, Observed: res.Observed})
 				}
 				if cfg.Verbose {
-					fmt.Fprintf(os.Stderr, "[%s] path %d: %s %s (dec=%d instr=%d q=%d)\n", h.Name, n, res.Outcome, res.Detail, res.Decisions, res.Instrs, res.Stats.Feasibility+res.Stats.Assertion)
+					fmt.Fprintf(os.Stderr, "[%s] path %d: %s %s (dec=%d instr=%d q=%d) %s\n", h.Name, n, res.Outcome, res.Detail, res.Decisions, res.Instrs, res.Stats.Feasibility+res.Stats.Assertion, pathStr(res.Trace))
 				}
 				work = append(work, res.Siblings...)
 				if rep.Paths >= maxPaths {
